@@ -329,6 +329,22 @@ class CertProperty:
                         {'p': '%s%s%s' % (l[1], l[2], l[5]), 't': 4}, {'p': '%s%s' % (l[0], l[2]), 't': 5}]
             inp = ''.join(rng.choice(letters) for _ in range(8))
             progs.append({'name': 'nm%d' % i, 'modes': [{'name': 'M', 'patterns': pats, 'transitions': []}], 'inputs': [inp]})
+        # shared token types: several patterns of one mode with the SAME token type (legal; only the priority
+        # among them is affected by known finding D8, the accepted languages per token type are not): chains of
+        # different lengths over one class need several refinement rounds of the minimizer, and terminal_ids has
+        # more entries than there are distinct token types
+        nst = 12 if tier == 'quick' else 120
+        for i in range(nst):
+            cls = rng.choice(['[0-9]', '[ab]', 'a', '.', '\\d'])
+            lens = rng.sample(range(1, 7), rng.randint(2, 4))
+            t0 = rng.randint(0, 3)
+            pats = [{'p': '%s{%d}' % (cls, n), 't': t0} for n in lens]
+            if rng.random() < 0.5:
+                pats.insert(rng.randrange(len(pats) + 1), {'p': rng.choice(['-', ' ', 'x+', '[xy]']), 't': t0 + 1 + rng.randint(0, 2)})
+            if rng.random() < 0.3:
+                pats.append({'p': '%s{%d}x' % (cls, rng.randint(1, 4)), 't': pats[-1]['t'] if rng.random() < 0.5 else t0 + 5})
+            progs.append({'name': 'shared%d' % i, 'modes': [{'name': 'M', 'patterns': pats, 'transitions': []}],
+                          'inputs': ['12345 123', 'aabab-ab']})
         # registry-sensitive shapes: leaves that are related (complements, the same set spelled
         # differently, the same character with another literal kind) inside ONE scanner, in one mode,
         # across modes and in lookaheads: a class registry that identifies or confuses them changes
